@@ -21,6 +21,23 @@ struct Cell
     void (*fn)();
 };
 
+// an allocator that is an empty class declared final (a valid Cpp17Allocator; it cannot be used as an empty base)
+template <class U>
+struct FinalAlloc final
+{
+    using value_type = U;
+    FinalAlloc() = default;
+    explicit FinalAlloc(int) {}
+    template <class W>
+    FinalAlloc(const FinalAlloc<W>&) noexcept {}
+    U* allocate(std::size_t n) { return LedgerAlloc<U, Kind<false, false, false, false>>{1}.allocate(n); }
+    void deallocate(U* p, std::size_t n) noexcept { LedgerAlloc<U, Kind<false, false, false, false>>{1}.deallocate(p, n); }
+    template <class W>
+    friend bool operator==(const FinalAlloc&, const FinalAlloc<W>&) noexcept { return true; }
+    template <class W>
+    friend bool operator!=(const FinalAlloc&, const FinalAlloc<W>&) noexcept { return false; }
+};
+
 uint64_t g_next_id = 1;
 
 template <class Cfg, class K>
@@ -616,6 +633,50 @@ static void c_accessors()
 }
 #endif
 
+#if VF_CELL(25)
+static void c_final_allocator()
+{
+    // every operation of the category with an allocator type that is empty and final
+    using FV = typename Cfg::template Vec<FinalAlloc<std::byte>>;
+    std::vector<MElem> m;
+    FV v = make_filled<FV>(m, 3, 5);
+    expect(v, m, "vector with an empty final allocator");
+    FV d;
+    require(d.empty() && d.begin() == d.end(), "default construction with an empty final allocator");
+    FV mv(std::move(v));
+    expect(mv, m, "move construction with an empty final allocator");
+    v = std::move(mv);
+    expect(v, m, "move assignment with an empty final allocator");
+    if constexpr (Cfg::ALL_COPYABLE)
+    {
+        FV c(v);
+        expect(c, m, "copy construction with an empty final allocator");
+        d = c;
+        expect(d, m, "copy assignment with an empty final allocator");
+        typename FV::value_type e{std::as_const(v)[1]};
+        expect_elem(e, m[1], "element with an empty final allocator");
+        typename FV::value_type e2{e};
+        e2 = e;
+        expect_elem(e2, m[1], "element copy with an empty final allocator");
+        require(c == v && !(c != v) && !(c < v), "comparison with an empty final allocator");
+    }
+    typename FV::value_type me{std::move(v[0])};
+    (void)me;
+    FV o = make_empty<FV>(8);
+    using std::swap;
+    swap(o, v);
+    require(o.size() == 3 && v.empty(), "swap with an empty final allocator");
+    if constexpr (Cfg::N_VARYING != 0)
+        o.reserve(9, 9 * 64 + 64);
+    else
+        o.reserve(9);
+    o.pop_back();
+    o.erase(o.end() - 1);  // the last one: relocation by erase is the erase cells' business (and an open finding)
+    o.clear();
+    require(o.empty() && o.get_allocator() == FinalAlloc<std::byte>{}, "reserve / pop_back / erase / clear / get_allocator with an empty final allocator");
+}
+#endif
+
 static std::vector<Cell> cells()
 {
     return {
@@ -693,6 +754,9 @@ static std::vector<Cell> cells()
 #endif
 #if VF_CELL(24)
     {24, "accessors", c_accessors},
+#endif
+#if VF_CELL(25)
+    {25, "allocator type that is an empty final class", c_final_allocator},
 #endif
     };
 }
